@@ -148,6 +148,25 @@ func c17r2(r *R) {
 		if d, ok := i.(*ssa.Defer); ok && calleeName(&d.Call) == "(net.Listener).Close" && c.Expr(d.Call.Value) == "p1" {
 			closers = append(closers, i)
 		}
+		// `defer func() { ln.Close() }()`: the deferred literal closes the listener on every path through it
+		if d, ok := i.(*ssa.Defer); ok {
+			if D := staticCallee(&d.Call); D != nil && D.Parent() == serve {
+				isClose := func(j ssa.Instruction) bool {
+					return isCall(j, "(net.Listener).Close") && c.Expr(callOf(j).Value) == "outer(p1)"
+				}
+				if len(D.Blocks) > 0 && c.escapePath(D, nil, isClose, isReturn) == nil {
+					n := 0
+					eachInstr(D, func(j ssa.Instruction) {
+						if isClose(j) {
+							n++
+						}
+					})
+					if n > 0 {
+						closers = append(closers, i)
+					}
+				}
+			}
+		}
 		if isCall(i, "(net.Listener).Close") {
 			if _, isDefer := i.(*ssa.Defer); !isDefer && c.Expr(callOf(i).Value) == "p1" {
 				closers = append(closers, i)
